@@ -97,11 +97,13 @@ def main(tier, seed):
     lib.build_coq()
     lib.build_driver()
     lib.build_harness()
-    n = lib.ncases(100 if tier == "quick" else 2000)
+    n = lib.ncases(160 if tier == "quick" else 3000)
     rng = random.Random(seed * 7919 + 8)
     d = lib.casedir(PID)
     insts = lib.load_corpus(PID) + [instgen.gen_instance(rng, {"slots": "some",
                                                                "maxdist": rng.choice(["small", "mid", "mid", "large"]),
+                                                               "depots": rng.choice(["ample", "ample", "absent", "scarce"]),
+                                                               "nlocs": rng.choice([3, 4]),
                                                                "ndeps": rng.choice([3, 4, 5, 6])}) for _ in range(n)]
     results = lib.pmap(run_one, [(d, k, inst) for k, inst in enumerate(insts)])
     nsteps = sum(max(0, len(r["lines"].get("TRAJ", [])) - 1) for r in results)
